@@ -9,6 +9,7 @@ SCHEDULE_DEPENDENT = False
 RULE = ('one seeded chart spec and event history is built four ways - hand-written closures, state_method_template + '
         'register_signal_callback + register_parent, Factory.create/catch/nest/to_method, and the text returned by '
         'to_code for every state exec-ed and used in place of the generated states - on queued, active-object and '
+        'Factory hosts (a second stratum registers or replaces handling for a state and signal after the chart has been running); '
         'Factory hosts; callback tables include states with no registered entry/exit/init and callbacks that decline. '
         'Oracle: every build\'s handler-side action log and resting states equal the reference model and the '
         'hand-written build step by step. Non-trivial = a compared build whose history contains a transition; distinct = '
@@ -16,8 +17,8 @@ RULE = ('one seeded chart spec and event history is built four ways - hand-writt
 ASSUMPTIONS = ['no schedule dimension']
 PROBES = []
 PLAN = {
-  'quick': {'strata': {'builds': 1500}, 'wall_s': 120, 'chunk': 25, 'min_conclusive': 300},
-  'thorough': {'strata': {'builds': 40000}, 'wall_s': 900, 'chunk': 100, 'min_conclusive': 3000},
+  'quick': {'strata': {'builds': 1500, 'late-registration': 700}, 'wall_s': 120, 'chunk': 25, 'min_conclusive': 300},
+  'thorough': {'strata': {'builds': 40000, 'late-registration': 20000}, 'wall_s': 900, 'chunk': 100, 'min_conclusive': 3000},
 }
 
 VARIANTS = [
@@ -36,6 +37,23 @@ def generate(seed, stratum, tier):
   kw = {'decline_bias': rng.choice([0.1, 0.3])}
   sc = cc.gen_chart_scenario(rng, combos=[('queued', 'closure-spied')], nops=(4, 25), spec_kw=kw, flags=False)
   sc['variants'] = [0] + sorted(rng.sample(range(1, len(VARIANTS)), 3 if tier == 'quick' else 6))
+  if stratum == 'late-registration':
+    # handling for a (state, signal) pair is registered, or replaced, after the chart has been running
+    # (the text of to_code is taken at build time, so those variants are left out here)
+    names = [st['name'] for st in sc['spec']['states']]
+    sigs = sc['spec']['signals']
+    ops = sc['ops']
+    for _ in range(rng.randrange(1, 4)):
+      sname, sig = rng.choice(names), rng.choice(sigs)
+      reaction = rng.choice([{'kind': 'hook', 'fx': []}, {'kind': 'trans', 'target': rng.choice(names), 'fx': []}, {'kind': 'decline'}])
+      pos = rng.randrange(1, len(ops) + 1)
+      ops.insert(pos, ['register', sname, sig, reaction])
+      # the signal is offered again afterwards (and usually was before)
+      ops.insert(rng.randrange(pos + 1, len(ops) + 1), ['ev', sig])
+      ops.insert(rng.randrange(0, pos), ['ev', sig])
+    sc['variants'] = [0] + [v for v in sc['variants'][1:] if VARIANTS[v]['build'] != 'to_code']
+    if len(sc['variants']) < 2:
+      sc['variants'].append(1)
   return sc
 
 
